@@ -121,6 +121,16 @@ def run_schedule(scn_def, schedule, keep_log=False):
         while True:
             ev = next(gen)
             names.append(ev.name)
+            if ev.name == "connected":
+                # what the application did BEFORE the opening handshake finished (on the loop's thread, unscheduled):
+                # the scheduled part then starts from the state that leaves behind
+                for call in scn_def.get("at_connected", ()):
+                    try:
+                        do_call(ws, call)
+                    except simnet.HarnessSignal:
+                        raise
+                    except Exception:
+                        pass
             if ev.name == "ready":
                 break
             if ev.name in ("connect_fail", "disconnected"):
@@ -188,6 +198,10 @@ def run_schedule(scn_def, schedule, keep_log=False):
             sched.spawn("loop", loop_fn)
         sched.run()
         out.wire = b"".join(e[2] for e in sim.log[mark:] if e[0] == "send")
+        if scn_def.get("at_connected"):
+            # frames written before Ready (after the upgrade request) belong to the connection's wire history
+            early = wire.split_http(b"".join(e[2] for e in sim.log[:mark] if e[0] == "send"))[1]
+            out.wire = early + out.wire
         out.results = results
         out.loop_events = list(loop_events)
         out.loop_marks = list(loop_marks)
